@@ -101,6 +101,52 @@ def get_stream(name, seed, tier, b, fp):
         return meta
 
 
+# ---------------------------------------------------------------- the two builds against each other (C19)
+def tf_normal(line):
+    """a token-factory message line reduced to what both builds must agree on"""
+    sp = line.split(" ")
+    m = obs.decode_msg(sp[1:])
+    return "%s %s tf %s sender=%s denom=%s amount=%s sub=%s" % (sp[0], " ".join(sp[1:5]), m["facet"], m.get("sender"), m.get("denom"), m.get("amount"), m.get("sub"))
+
+
+def cross_lines(b, ops_lines, tag):
+    """one history on both builds -> (normalised default lines, normalised miniwasm lines)"""
+    d = os.path.join(WORK, "replay"); os.makedirs(d, exist_ok=True)
+    p = os.path.join(d, "%s-x-%d" % (tag, os.getpid()))
+    open(p + ".ops", "w").write("\n".join(ops_lines) + "\n")
+    res = []
+    for v in ("default", "miniwasm"):
+        rc, out, _ = run([b.exe[v], "run", p + ".ops", p + "." + v], timeout=600)
+        if rc != 0:
+            raise RuntimeError("harness run failed: " + out[-1000:])
+        lines = open(p + "." + v).read().splitlines()[1:]
+        res.append([tf_normal(l) if obs.facet(l) in ("msg:create", "msg:mint", "msg:burn") else l for l in lines])
+    return res[0], res[1]
+
+
+def cross_build(meta, b):
+    """runs the default build's op files through the miniwasm build; -> (histories, lines compared, disagreements)"""
+    dis = []; nh = 0; nl = 0
+    for prefix in meta["prefixes"]:
+        rc, out, _ = run([b.exe["miniwasm"], "run", prefix + ".ops", prefix + ".impl_mini"], timeout=3000)
+        if rc != 0:
+            raise RuntimeError("miniwasm harness run failed: " + out[-1500:])
+        ops = obs.split_histories(open(prefix + ".ops").read())
+        a = obs.split_histories(open(prefix + ".impl").read())
+        c = obs.split_histories(open(prefix + ".impl_mini").read())
+        for h, (o, x, y) in enumerate(zip(ops, a, c)):
+            nh += 1
+            def norm(lines):
+                return [tf_normal(l) if obs.facet(l) in ("msg:create", "msg:mint", "msg:burn") else l for l in lines[1:]]
+            nx, ny = norm(x), norm(y); nl += len(nx)
+            if nx != ny:
+                k = next((k for k, (p, q) in enumerate(zip(nx, ny)) if p != q), min(len(nx), len(ny)))
+                dis.append({"prefix": prefix, "history": h, "ops": o, "stream": meta["name"],
+                            "impl_line": nx[k] if k < len(nx) else "<missing>", "model_line": ny[k] if k < len(ny) else "<missing>",
+                            "why": "the two builds differ outside the token-factory encoding"})
+    return nh, nl, dis
+
+
 # ---------------------------------------------------------------- comparison
 def project(lines, facets):
     return [l for l in lines if obs.facet(l) in facets]
